@@ -92,9 +92,13 @@ Section Dry.
     pose proof (step_policy_apply_filter sc Qd eq d_refl s (p_id p)) as P.
     destruct (policy_apply_filter sc s (p_id p)) as [s1 f1]. cbn [fst] in P.
     destruct (match f1 with FPass => _ | _ => _ end).
-    - pose proof (d_kubectl_apply s1 l) as K.
-      destruct (kubectl_apply sc s1 l) as [s2 r]. cbn [fst] in K.
-      destruct r; (tr; [exact P|]; tr; [exact K|]; tr; [|base]; base).
+    - pose proof (step_mutate sc Qd eq d_refl d_trans s1 l) as M.
+      destruct (mutate sc s1 l) as [sm okm]. cbn [fst] in M.
+      destruct okm; cbn [negb].
+      + pose proof (d_kubectl_apply sm l) as K.
+        destruct (kubectl_apply sc sm l) as [s2 r]. cbn [fst] in K.
+        destruct r; (tr; [exact P|]; tr; [exact M|]; tr; [exact K|]; tr; [|base]; base).
+      + tr; [exact P|]. tr; [exact M|]. tr; [|base]. base.
     - tr; [exact P|]. tr; [|base]. base.
     - tr; [exact P|]. tr; [|base]. base.
   Qed.
